@@ -9,6 +9,7 @@ nothing else.  Invariant hooks on the live ``Indentator`` (level never
 negative, back at zero when a print call completes).
 """
 
+import itertools
 from vk.boot import HarnessBroken
 from vk import work, printing, probe
 from vk.gen import jsgen
@@ -26,7 +27,7 @@ RULE = ('inputs: corpus and Annex A derivations biased towards nesting (blocks, 
 ASSUMPTIONS = ['structural depth of the output is computed from the refjs tree of the output itself; continuation lines '
                'of multi-line string / comment tokens and lines that start with a comment are exempt']
 BUDGET_S = {'quick': 60, 'thorough': 700}
-REQUIRED_HITS = ['pretty_print', 'used_printer', 'shape', 'deep_shape', 'lines_checked', 'Indentator.indent', 'Indentator.dedent', 'level_zero_at_end', 'indent_from_dispatcher', 'indent_to_shortcut', 'closing_run', 'tolerant_dispatcher']
+REQUIRED_HITS = ['pretty_print', 'used_printer', 'shape', 'deep_shape', 'lines_checked', 'Indentator.indent', 'Indentator.dedent', 'level_zero_at_end', 'indent_from_dispatcher', 'indent_to_shortcut', 'closing_run', 'tolerant_dispatcher', 'white_space_indent']
 FLOOR = {'quick': 1500, 'thorough': 20000}
 
 INDENTS = ['  ', '\t', '', ' ', '   ', '    ', ' \t']
@@ -78,6 +79,10 @@ def token_depths(res):
     return depth
 
 
+# ES5 white space (7.2): an indentation string may consist of any of these
+_WS = '\t\x0b\x0c \xa0\ufeff\u1680\u2000\u2001\u2002\u2003\u2004\u2005\u2006\u2007\u2008\u2009\u200a\u202f\u205f\u3000'
+
+
 def audit(output, indent, res):
     """the oracle over one output text; returns list of (mech, detail), stats"""
     out = []
@@ -100,7 +105,7 @@ def audit(output, indent, res):
         seen_lines.add(line)
         ls = table.starts[line - 1]
         lead = output[ls:t.start]
-        if lead.strip(' \t') != '':
+        if lead.strip(_WS) != '':
             # something precedes the token on its line: a comment or the tail of a multi-line token
             stats['comment_lines'] += 1
             continue
@@ -369,6 +374,14 @@ def run(ctx):
                 check(ctx, levels, text, INDENTS, wc, 'shape', history=False)
                 check(ctx, levels, text, INDENTS[:2], wc, 'shape', history=True)
             ctx.hit('shape')
+        # every ES5 white-space character as the indentation string
+        wtexts = ['function f() { if (a) { /re/.test(b); } else { switch (c) { case 1: d; default: { e } } } return { k: [1, { m: 2 }] }; }',
+                  'try { a } catch (e) { b } finally { do { c } while (d) } x = function () { return function () { y } };',
+                  '{ { { a; } } } for (;;) { with (o) { l: { break l; } } }']
+        for k, (w, text) in enumerate(itertools.product(_WS, wtexts)):
+            if k % ctx.nshards == ctx.shard:
+                check(ctx, levels, text, [w, ' ' + w, w + '\t'], False, 'white_space_indent', force_dispatcher=(False, True, 'shortcut')[k % 3])
+                ctx.hit('white_space_indent')
         for k, text in enumerate(GRAFT_TEXTS):
             for j, indent in enumerate(INDENTS[:3]):
                 if (k * 3 + j) % ctx.nshards != ctx.shard:
